@@ -35,7 +35,7 @@ NOTSET = ["5", "[ 1 2 ]", '"s"']
 
 # ---------------------------------------------------------------- layouts (symbolic, JSON-able)
 # file spec: {"top": kind | "notset:<text>", "bindings": [[key, val], …]}
-# val: ["lit", n] | ["imp", arg] | ["set", [[k, v], …]];  arg: ["path", text] | ["paren", arg] | ["other", text]
+# val: ["lit", n] | ["imp", arg] | ["set", [[k, v], …]];  arg: ["path", text] | ["paren", arg] | ["cmt", arg] | ["letin", arg] | ["other", text]
 # `$BASE` in a literal / entry stands for the (canonical) temporary directory, `$HOME` for the home dir.
 def subst(text: str, base: str, home: str | None) -> str:
     text = text.replace("$BASE2", base.lstrip("/")).replace("$BASE", base)
@@ -49,6 +49,10 @@ def render_arg(a, base, home) -> str:
         return subst(a[1], base, home)
     if a[0] == "paren":
         return "(" + render_arg(a[1], base, home) + ")"
+    if a[0] == "cmt":  # a comment on its own line between `import` and its argument
+        return "\n    # note\n    " + render_arg(a[1], base, home)
+    if a[0] == "letin":  # the path is the body of a parenthesised let
+        return "(let q = 1; in " + render_arg(a[1], base, home) + ")"
     return a[1]
 
 
@@ -91,6 +95,10 @@ def materialise(layout, base: str, home: str | None):
 
 # ---------------------------------------------------------------- model requests
 def sx_arg(a, base, home):
+    if a[0] == "cmt":
+        return sx_arg(a[1], base, home)
+    if a[0] == "letin":
+        return ["paren", sx_arg(a[1], base, home)]
     if a[0] == "path":
         return ["path", hx(subst(a[1], base, home))]
     if a[0] == "paren":
@@ -152,6 +160,10 @@ def canon_layout_val(v, base, home):
 
 
 def canon_layout_arg(a, base, home):
+    if a[0] == "cmt":
+        return canon_layout_arg(a[1], base, home)
+    if a[0] == "letin":
+        return ["paren", canon_layout_arg(a[1], base, home)]
     if a[0] == "path":
         return ["path", subst(a[1], base, home)]
     if a[0] == "paren":
@@ -246,7 +258,7 @@ def lit_kind(text: str) -> str:
 
 
 def strip_paren(a):
-    while a[0] == "paren":
+    while a[0] in ("paren", "cmt", "letin"):
         a = a[1]
     return a
 
@@ -342,6 +354,8 @@ def gen_layout(rng, depth, n_files, with_home):
             arg, want = gen_import(rng, rel, d, rels, dirs, with_home)
             for _ in range(rng.choice([0, 0, 0, 1, 2])):
                 arg = ["paren", arg]
+            if arg[0] == "path" and rng.random() < 0.12:
+                arg = [rng.choice(["cmt", "letin"]), arg]
             if rng.random() < 0.2:
                 nested.append([key, ["imp", arg]])
                 intended[(rel, ("s", key))] = want
